@@ -335,9 +335,9 @@ theorem aside_preComplete (cfg : Cfg) (hs : cfg.sidecar = false) (rq : Req) (hk 
   · intro s hs' q hq
     simp only [List.mem_singleton] at hs'; subst hs'
     exact aside_tmp (ref_openTmp cfg fs 0 _ _ _ q (by simpa [Step.writes] using hq))
-  · exact hstore _ _
   · exact (writes_mkdirAll _ _).mono (fun q h => aside_above_obj h.1 hk.1)
   · exact WritesIn.ite ((writes_archive_xattr cfg hs rq rq.key _).mono (fun q h => aside_V h)) (WritesIn.nil _)
+  · rw [deleteAttrs_xattr cfg hs]; exact WritesIn.nil _
   · exact hstore _ _
 
 theorem aside_cleanupUpload (cfg : Cfg) (rq : Req) (fs : FS) : WritesIn (Aside cfg rq.key) (cleanupUpload cfg rq fs) := by
